@@ -686,6 +686,35 @@ def main(repo, lean):
     b = function_body(fcgi, r"void\s+async_read_from_socket\s*\(")
     m = need(re.search(r"size_t\s+min_size\s*=\s*std::max\(\s*n\s*,\s*size_t\((\d+)\)\s*\)\s*;\s*if\s*\(\s*cache_\.size\(\)\s*<\s*n\s*\)\s*\{\s*cache_\.resize\(min_size,0\)\s*;", b), "cache sizing")
     w(f"def cacheMin : Nat := {m.group(1)}")
+    # widths of the size variables of the record reader: the arithmetic is done in the declared type
+    WIDTH = {"size_t": 64, "std::size_t": 64, "unsigned long": 64, "unsigned long long": 64, "uint64_t": 64,
+             "unsigned": 32, "unsigned int": 32, "uint32_t": 32, "uint16_t": 16, "unsigned short": 16, "uint8_t": 8, "unsigned char": 8}
+
+    def rec_size_decl(body, what):
+        m = need(re.search(r"([A-Za-z_][\w:]*(?:\s+[a-z]+)*)\s+rec_size\s*=\s*header_\.content_length\s*\+\s*header_\.padding_length\s*;", body), what + ": rec_size")
+        ty = re.sub(r"\s+", " ", m.group(1)).strip()
+        if ty not in WIDTH:
+            raise Untranslatable(f"{what}: rec_size declared as `{ty}` (signed or unknown width)")
+        m2 = need(re.search(r"([A-Za-z_][\w:]*(?:\s+[a-z]+)*)\s+cur_size\s*=\s*body_\.size\(\)\s*;", body), what + ": cur_size")
+        ty2 = re.sub(r"\s+", " ", m2.group(1)).strip()
+        if WIDTH.get(ty2) != 64:
+            raise Untranslatable(f"{what}: cur_size declared as `{ty2}`")
+        return ty, WIDTH[ty]
+    b = function_body(fcgi, r"void\s+on_header_read\s*\(")
+    ty, bits = rec_size_decl(b, "fastcgi::on_header_read")
+    need(re.search(r"body_\.resize\(cur_size\s*\+\s*rec_size\)\s*;", b), "on_header_read: body_.resize")
+    need(re.search(r"async_read_from_socket\(\s*&body_\[cur_size\]\s*,\s*rec_size\s*,", b), "on_header_read: read rec_size bytes")
+    w(f"/-- `{ty} rec_size = header_.content_length + header_.padding_length` in `on_header_read` (asynchronous path) -/")
+    w(f"def fcgiRecSizeAsync (content_length padding_length : Nat) : Nat := (content_length + padding_length) % {2 ** bits}")
+    b = function_body(fcgi, r"bool\s+non_blocking_read_record\s*\(")
+    ty, bits = rec_size_decl(b, "fastcgi::non_blocking_read_record")
+    need(re.search(r"if\s*\(\s*buffer_size\s*<\s*sizeof\(hdr\)\s*\+\s*hdr\.content_length\s*\+\s*hdr\.padding_length\s*\)\s*return\s+false\s*;", b), "non_blocking_read_record: completeness test")
+    need(re.search(r"size_t\s+buffer_size\s*=\s*get_buffer_size\(\)\s*;", b), "non_blocking_read_record: buffer_size")
+    need(re.search(r"body_\.resize\(cur_size\s*\+\s*rec_size\)\s*;\s*read_bytes\(&body_\[cur_size\],rec_size\)\s*;\s*body_\.resize\(cur_size\s*\+\s*header_\.content_length\)\s*;", b), "non_blocking_read_record: body handling")
+    w(f"/-- the same declaration in `non_blocking_read_record` (record completely cached) -/")
+    w(f"def fcgiRecSizeCached (content_length padding_length : Nat) : Nat := (content_length + padding_length) % {2 ** bits}")
+    b = function_body(fcgi, r"void\s+on_body_read\s*\(")
+    need(re.search(r"body_\.resize\(body_\.size\(\)\s*-\s*header_\.padding_length\)\s*;", b), "on_body_read: padding trim")
     b = function_body(fcgi, r"void\s+async_send_respnse\s*\(")
     pr = re.search(r"header_\.content_length\s*=\s*body_\.size\(\)\s*;\s*header_\.padding_length\s*=\s*0\s*;", b) is not None
     w(f"/-- short replies reset `header_.padding_length` before computing their own padding -/\ndef replyPaddingReset : Bool := {'true' if pr else 'false'}")
@@ -791,6 +820,21 @@ def main(repo, lean):
     m = need(re.search(r"case\s+('(?:\\.|[^'\\])')\s*:\s*result\s*\+=\s*('(?:\\.|[^'\\])')\s*;\s*break\s*;\s*case\s+('(?:\\.|[^'\\])')\s*:\s*"
                        r"if\s*\(\s*end\s*-\s*begin\s*>=\s*(\d+)\s*&&\s*http::protocol::xdigit\(begin\[1\]\)\s*&&\s*http::protocol::xdigit\(begin\[2\]\)\s*\)", ud), "urldecode shape")
     w(f"def urldecPlus : Nat := {char_val(m.group(1))}\ndef urldecSpace : Nat := {char_val(m.group(2))}\ndef urldecPct : Nat := {char_val(m.group(3))}\ndef urldecNeed : Nat := {m.group(4)}")
+    w("")
+
+    # total_read_ (the 16 KiB header budget) is per request: reset when a request's header phase starts
+    arh = function_body(http, r"virtual\s+void\s+async_read_headers\s*\(\s*handler\s+const\s*&\s*h\s*\)")
+    ra_http = function_body(http, r"void\s+reset_all\s*\(\s*\)\s*\{")
+    ka = function_body(http, r"virtual\s+bool\s+keep_alive\s*\(\s*\)")
+    reset_in_arh = re.search(r"\btotal_read_\s*=\s*0\s*;", arh) is not None
+    reset_in_ra = (re.search(r"\btotal_read_\s*=\s*0\s*;", ra_http) is not None and
+                   re.search(r"if\s*\(\s*ka_value\s*\)\s*\{\s*reset_all\(\)\s*;", ka) is not None)
+    assigns = re.findall(r"\btotal_read_\s*(\+=|-=|=)\s*([^;]*);", http)
+    if sorted(set((op, re.sub(r"\s+", "", rhs)) for op, rhs in assigns)) != sorted([("=", "0"), ("+=", "n"), ("+=", "input_body_.size()-input_body_ptr_")]):
+        raise Untranslatable("http: assignments to total_read_: " + str(assigns))
+    need(re.search(r"case\s+parser::more_data\s*:\s*if\s*\(\s*total_read_\s*>\s*(\d+)\s*\)", http), "http: total_read_ test")
+    w("/-- `total_read_ = 0` is executed when the header phase of every request starts (`async_read_headers`, or `reset_all()`\nfrom `keep_alive()`); `false`: the counter accumulates over a kept-alive connection -/")
+    w(f"def httpTotalReadResetPerRequest : Bool := {'true' if (reset_in_arh or reset_in_ra) else 'false'}")
     w("")
 
     # ============================================================ request layer
